@@ -482,3 +482,65 @@ def r1e_worklist_unbounded(ctx):
                 r.ok(sample={"worklist": f.id.split("::")[-1]} if len(r.samples) < 4 else None)
     r.floor("pop-driven worklists", n, 1)
     return r
+
+
+SHARED_READS = r"atomic::Atomic(\w+|::<[^>]*>)::(load|compare_exchange\w*|fetch_\w+|swap)$"
+
+
+def _exit_rests_on_shared_read(f, body, l, limit=60):
+    """does the tested local depend on a value read from shared state *inside* the loop (an atomic load)?"""
+    seen, st = set(), [l]
+    while st and len(seen) < limit:
+        x = st.pop()
+        if x is None or x in seen:
+            continue
+        seen.add(x)
+        for d in f.whole_defs(x):
+            if d[1] not in body if d[0] in ("assign", "call") else True:
+                continue
+            if d[0] == "call":
+                if re.search(SHARED_READS, d[2].get("res") or d[2].get("fn") or ""):
+                    return d[2]
+                st += [op_local(a) for a in d[2]["args"]]
+            else:
+                rv = d[3]
+                if rv[0] == "use":
+                    st.append(op_local(rv[1]))
+                elif rv[0] == "bin":
+                    st += [op_local(rv[2]), op_local(rv[3])]
+                elif rv[0] in ("cast", "un"):
+                    st.append(op_local(rv[-1]))
+                elif rv[0] == "ref":
+                    st.append(place_local(rv[2]))
+    return None
+
+
+def r1e_no_wait_for_quiescence(ctx):
+    r = Result("R1e-c", "no hand-written loop can be left only through tests of a value it reads from shared state inside the loop "
+                        "(an atomic load / compare-exchange): such a retry loop ends when the other threads stop writing, not "
+                        "after a number of steps -- a steady stream of analyses keeps the request spinning for ever although no "
+                        "lock is held. A loop with another way out (a counter, an iterator, a pop) is bounded by that one")
+    crate = ctx.bin
+    n = 0
+    for f in crate.real_fns():
+        if "_serde::" in f.id or f.id.startswith("<"):
+            continue
+        for h, latches, body in natural_loops(f):
+            if _iterator_driven(f, h, body):
+                continue
+            n += 1
+            ex = _exit_switches(f, body)
+            # other ways out: a call whose unwinding is not the point, a `return`/`?` edge is a switch too
+            if not ex:
+                continue
+            reads = [_exit_rests_on_shared_read(f, body, l) if l is not None else None for _b, l in ex]
+            key = "R1e-c|%s|retry until shared state is quiet" % f.id
+            if all(reads):
+                r.violate(key, "loop in %s (head near %s) is left only when the value of %s read at %s compares as wanted: other "
+                               "threads decide when it ends" % (f.id, crate.span_str(reads[0]["span"]),
+                                                              (reads[0].get("res") or "").split("::")[-2:], crate.span_str(reads[0]["span"])))
+            else:
+                r.ok(sample={"loop": f.id.split("::")[-1], "exits": len(ex), "resting on a shared read": sum(1 for x in reads if x)}
+                     if len(r.samples) < 4 else None)
+    r.floor("hand-written loops", n, 8)
+    return r
